@@ -844,6 +844,20 @@ impl World {
                             t.size,
                             hash64(7, &[&buf[..t.size]])
                         ));
+                        if self.lane == Lane::Null {
+                            let cl = self.eps.iter().position(|e| e.addrs.contains(&t.destination)).map(|i| self.eps[i].spec.cid_len).unwrap_or(0);
+                            let seg = t.segment_size.unwrap_or(t.size).max(1);
+                            for s in buf[..t.size].chunks(seg) {
+                                match crate::wire::decode_plain_datagram(s, cl) {
+                                    Ok(p) => {
+                                        for pk in p {
+                                            tr.push(format!("    {:?} pn={} len={} {:?}", pk.pkt.ty, pk.pkt.pn_trunc, pk.size, pk.frames));
+                                        }
+                                    }
+                                    Err(e) => tr.push(format!("    undecodable: {e:?}")),
+                                }
+                            }
+                        }
                     }
                     let dst_cid_len = self.ep_of_addr(&t.destination).map(|i| self.eps[i].spec.cid_len);
                     let conn = self.eps[ei].conns.get_mut(&ch).unwrap();
